@@ -334,6 +334,8 @@ type Rep struct {
 	End   int    // offset after its last octet
 	NameI bool   // literal with indexed name
 	Huff  bool   // some string literal used Huffman coding
+	// MaxStr is the largest of the encoded and decoded lengths of its string literals
+	MaxStr int
 }
 
 // Result of decoding one block. If Accept is false the block MUST be rejected
@@ -413,25 +415,25 @@ func (p *parser) integer(n uint) (v uint64, ok bool) {
 }
 
 // str reads a string literal (section 5.2). reason != "" is a mandatory error.
-func (p *parser) str() (s string, huff bool, reason string) {
+func (p *parser) str() (s string, huff bool, span int, reason string) {
 	if p.pos >= len(p.b) {
-		return "", false, errTrunc
+		return "", false, 0, errTrunc
 	}
 	huff = p.b[p.pos]&0x80 != 0
 	l, ok := p.integer(7)
 	if !ok {
-		return "", huff, errTrunc
+		return "", huff, 0, errTrunc
 	}
 	if l > uint64(len(p.b)-p.pos) {
-		return "", huff, errTrunc
+		return "", huff, 0, errTrunc
 	}
 	raw := p.b[p.pos : p.pos+int(l)]
 	p.pos += int(l)
 	if !huff {
-		return string(raw), false, ""
+		return string(raw), false, len(raw), ""
 	}
 	s, why := HuffmanDecode(raw)
-	return s, true, why
+	return s, true, max(len(raw), len(s)), why
 }
 
 // DecodeBlock decodes one complete header block against t, which is advanced
@@ -515,19 +517,21 @@ func DecodeBlock(t *Table, block []byte) Result {
 				f.Name = e.Name
 				rep.NameI = true
 			} else {
-				s, h, why := p.str()
+				s, h, span, why := p.str()
 				if why != "" {
 					return fail(kind, off, why)
 				}
 				f.Name = s
 				rep.Huff = rep.Huff || h
+				rep.MaxStr = max(rep.MaxStr, span)
 			}
-			s, h, why := p.str()
+			s, h, span, why := p.str()
 			if why != "" {
 				return fail(kind, off, why)
 			}
 			f.Value = s
 			rep.Huff = rep.Huff || h
+			rep.MaxStr = max(rep.MaxStr, span)
 			if kind == "Li" {
 				t.Add(f)
 			}
